@@ -78,6 +78,17 @@ def generate(rng, tier):
                      'ppu.tick 300', 'ppu.st']
             cases.append(('offon%d' % n, lines))
             n += 1
+    # whole machine with objects enabled and objects on many lines: the line/mode schedule must not depend on OAM
+    for j in range(3 if tier == 'quick' else 20):
+        lines = ['sys.cpurom', 'sys.w 65344 0']
+        for o in range(40):
+            y = rng.choice([0, 16, 17, 40, 80, 100, 150, 159, rng.randrange(256)])
+            lines += ['sys.w %d %d' % (0xfe00 + 4 * o, y), 'sys.w %d %d' % (0xfe01 + 4 * o, rng.randrange(0, 168)),
+                      'sys.w %d %d' % (0xfe02 + 4 * o, rng.randrange(256)), 'sys.w %d %d' % (0xfe03 + 4 * o, rng.choice([0, 0x80, 0x20, 0x10]))]
+        for _ in range(40):
+            lines.append('sys.w %d %d' % (rng.randrange(0x8000, 0x9fff), rng.randrange(256)))
+        lines += ['sys.w 65344 %d' % rng.choice([0x93, 0x83, 0xb3, 0x97]), 'sys.lcdtrace %d' % (L.FRAME * 2 + 300)]
+        cases.append(('objs%d' % j, lines))
     info = dict(exhaustive=False,
                 input_distribution=dict(power_on_frames=frames, random_schedules=nrand, off_on_positions=n,
                                         cycles_total=sum(int(l.split()[1]) for c in cases for l in c[1]
